@@ -29,7 +29,10 @@ for pid in ALL:
         "engine": "vmon",
         "level_claimed": {
             "category": m["level"],
-            "text": m.get("level_text", m["rule"])[:1500],
+            "text": (m.get("level_text") or (
+                ("Every crash point (callback invocation position) of every generated scenario is exercised and judged by the online checker. " if m["level"] == "fault_enumeration" else
+                 "Bounded exploration of the property's unbounded quantifier by seeded generation / exhaustive enumeration of small cases, every execution judged by an oracle independent of the implementation. ")
+                + "Verdict = 'held on the executions observed', never 'verified'; evidence reports what the monitors saw. Workload and non-trivial rule: " + m["rule"]))[:1800],
             "design_ref": f"DESIGN.md section 3, {pid}",
         },
         "level_note": " ; ".join(m.get("assumptions", []))[:1500] or "see DESIGN.md",
